@@ -225,6 +225,41 @@ func c07Eval(c *fw.Ctx, data any) {
 				}
 			}
 		}
+		// size-arithmetic corner: a group-mod whose single bucket holds a Nicira action with a huge (but honoured) length
+		// followed by a set-field that carries only its OXM header, so that the bucket's recomputed 16-bit size reaches
+		// or wraps around 65536 (several totals around the wrap)
+		for _, natLen := range []int{65489, 65481, 65488, 65473, 65490, 65496, 65500, 65440, 32768, 65400} {
+			for _, sf := range [][]byte{{0, 25, 0, 8, 0x80, 0, 26 << 1, 16}, {0, 25, 0, 8, 0x80, 0, 27<<1 | 1, 32}, {0, 25, 0, 8, 0x80, 0, 3 << 1, 6}, {}} {
+				total := 8 + 8 + 16 + natLen + len(sf)
+				if total > 65535 {
+					continue
+				}
+				f := make([]byte, total)
+				f[0], f[1] = 4, 15
+				binary.BigEndian.PutUint16(f[2:], uint16(total))
+				binary.BigEndian.PutUint16(f[16:], uint16(16+natLen+len(sf))) // bucket length
+				a := f[32:]
+				binary.BigEndian.PutUint16(a[0:], 0xffff)
+				binary.BigEndian.PutUint16(a[2:], uint16(natLen))
+				binary.BigEndian.PutUint32(a[4:], 0x2320)
+				binary.BigEndian.PutUint16(a[8:], 34) // NXAST_CONJUNCTION
+				copy(f[32+natLen:], sf)
+				if !t.run("size-wrap", f) {
+					return
+				}
+				// the same actions in a packet-out and in an apply-actions instruction of a flow-stats reply where they fit
+				po := make([]byte, 24+natLen+len(sf))
+				if len(po) <= 65535 {
+					po[0], po[1] = 4, 13
+					binary.BigEndian.PutUint16(po[2:], uint16(len(po)))
+					binary.BigEndian.PutUint16(po[16:], uint16(natLen+len(sf)))
+					copy(po[24:], f[32:])
+					if !t.run("size-wrap", po) {
+						return
+					}
+				}
+			}
+		}
 		// random bytes behind each valid (version, type) pair
 		for typ := 0; typ < 30; typ++ {
 			for _, n := range []int{8, 16, 24, 32, 40, 56, 64, 72, 128, 1024} {
